@@ -543,6 +543,26 @@ def mgr_rejections(ctx: Ctx, pid: str):
             ok = m is not None and m["m"] == meth and equivalent(g, f_and(A(("a", meth, "single_caller")), A(a))) is None
     ctx.check(ok, f"{pid}.single-caller", sc[1].site if sc else fn.site, "TransactionManager.elaborate.single_caller", found=fstr(sc[2]) if sc else "no such raise",
               required="raise exactly when a single_caller method has more than one recorded call")
+    # ... "called from two transactions" also when there is a single call site inside a method that two transactions
+    # call: the transactions reaching the method are counted, before simultaneous transactions are merged (F13)
+    sim = _fn(ctx, MANAGER, "TransactionManager._simultaneous", rule)
+    ok2 = False
+    det2 = "no rejection by the number of transactions reaching the method"
+    for ex2, r2 in sim.facts(Raise):
+        g2 = py_guard(r2)
+        lp2 = loops(r2)
+        if len(lp2) != 1 or pmatch("Q_mm.methods", lp2[0][1]) is None:
+            continue
+        meth2 = lp2[0][0][0]
+        at2 = atoms_of(g2)
+        cnt = [a for a in at2 if pmatch("1 < len(Q_mm.transactions_for(Q_m))", a) is not None or pmatch("1 < len(Q_mm.transactions_by_method[Q_m])", a) is not None]
+        det2 = fstr(g2)[:160]
+        if len(cnt) == 1 and ("a", meth2, "single_caller") in at2 and equivalent(g2, f_and(A(("a", meth2, "single_caller")), A(cnt[0]))) is None:
+            mm_ = pmatch("1 < len(Q_mm.transactions_for(Q_m))", cnt[0]) or pmatch("1 < len(Q_mm.transactions_by_method[Q_m])", cnt[0])
+            mmd = sim.exs[0].vardef(mm_["mm"]) or mm_["mm"]
+            ok2 = mm_["m"] == meth2 and pmatch("MethodMap(self.transactions, self.methods)", mmd) is not None
+    ctx.check(ok2, f"{pid}.single-caller.transactions", sim.site, "TransactionManager._simultaneous.single_caller", found=det2,
+              required="raise when more than one transaction reaches a single_caller method (counted on the method map of the design as written, before merging)")
     ok = False
     if dl:
         ex, r, g = dl
